@@ -75,11 +75,11 @@ func c04(r *sim.R) *sim.Violation {
 		}
 		after := m.Clone()
 		after.Add(wo.iface, wo.block())
-		if seen, cl, det := wd.checkStore(after, nil, ""); cl != "" {
+		if seen, cl, det := wd.CheckStore(after, nil, ""); cl != "" {
 			if v := r.Report(&sim.Violation{Clause: cl, Signature: "after uninterrupted write-out", Detail: fmt.Sprintf("after %s: %s", wo, det)}); v != nil {
 				return v
 			}
-		} else if v := wd.checkServices(seen, "", true, func(cl, det string) *sim.Violation {
+		} else if v := wd.CheckServices(seen, "", true, func(cl, det string) *sim.Violation {
 			return r.Report(&sim.Violation{Clause: cl, Signature: "after uninterrupted write-out", Detail: fmt.Sprintf("after %s: %s", wo, det)})
 		}); v != nil {
 			return v
@@ -192,7 +192,7 @@ func (wd *world) dayState(wo *writeout, oldMeta []byte, oldName string) string {
 func (wd *world) afterCrash(r *sim.R, m *model.Store, wo *writeout, sig string, followFlows []model.Flow, second bool) *sim.Violation {
 	wd.fs.Restart("r")
 	blk := wo.block()
-	seen, cl, det := wd.checkStore(m, &blk, wo.iface)
+	seen, cl, det := wd.CheckStore(m, &blk, wo.iface)
 	if cl != "" {
 		if v := r.Report(&sim.Violation{Clause: cl, Signature: sig, Detail: det}); v != nil {
 			return v
@@ -201,7 +201,7 @@ func (wd *world) afterCrash(r *sim.R, m *model.Store, wo *writeout, sig string, 
 			return nil // known finding that prevents further checking of this state
 		}
 	}
-	if v := wd.checkServices(seen, wo.iface, true, func(cl, det string) *sim.Violation {
+	if v := wd.CheckServices(seen, wo.iface, true, func(cl, det string) *sim.Violation {
 		return r.Report(&sim.Violation{Clause: cl, Signature: sig, Detail: det})
 	}); v != nil {
 		return v
@@ -221,7 +221,7 @@ func (wd *world) afterCrash(r *sim.R, m *model.Store, wo *writeout, sig string, 
 			r.Probe("second_crash_fired")
 			wd.fs.Restart("r")
 			nb := next.block()
-			seen2, cl, det := wd.checkStore(seen, &nb, next.iface)
+			seen2, cl, det := wd.CheckStore(seen, &nb, next.iface)
 			if cl != "" {
 				if v := r.Report(&sim.Violation{Clause: cl, Signature: sig + "; then second crash", Detail: det}); v != nil {
 					return v
@@ -254,11 +254,11 @@ func (wd *world) afterCrash(r *sim.R, m *model.Store, wo *writeout, sig string, 
 	after := seen.Clone()
 	after.Add(next.iface, next.block())
 	wd.fs.Restart("r")
-	seen2, cl, det := wd.checkStore(after, nil, "")
+	seen2, cl, det := wd.CheckStore(after, nil, "")
 	if cl != "" {
 		return r.Report(&sim.Violation{Clause: "next-writeout-" + cl, Signature: sig, Detail: fmt.Sprintf("after %s following the crash: %s", next, det)})
 	}
-	return wd.checkServices(seen2, "", false, func(cl, det string) *sim.Violation {
+	return wd.CheckServices(seen2, "", false, func(cl, det string) *sim.Violation {
 		return r.Report(&sim.Violation{Clause: "next-writeout-" + cl, Signature: sig, Detail: det})
 	})
 }
